@@ -254,6 +254,9 @@ case('two-drivers', 'ff block writes the struct, comb block a field', 'MultiWrit
 case('two-drivers', 'ff block writes the nested struct, comb block a leaf at depth 2', 'MultiWriterError', Mid=[FF('f1', 's.dp', 'Deep(s.si, s.i)'), W('b2', 's.dp.p.g', 's.i[0:4]')])
 case('two-drivers', 'ff block writes the wire, net drives a slice of it', 'MultiWriterError', Mid=[FF('f1', 's.w'), "connect(s.w[4:8], s.i[0:4])"])
 case('two-drivers', 'two ff blocks write one wire', 'MultiWriterError', Mid=[FF('f1', 's.w'), FF('f2', 's.w', 's.i + 1')])
+case('two-drivers', 'two ff blocks, one writes through a helper', 'MultiWriterError', Mid=["@s.func\ndef ld(v): s.w <<= v", "@update_ff\ndef f1(): ld(s.i)", FF('f2', 's.w', 's.i + 1')])
+case('two-drivers', 'two ff blocks through one helper', 'MultiWriterError', Mid=["@s.func\ndef ld(v): s.w <<= v", "@update_ff\ndef f1(): ld(s.i)", "@update_ff\ndef f2(): ld(s.i + 1)"])
+case('two-drivers', 'one ff block through a helper, comb block elsewhere', None, Mid=["@s.func\ndef ld(v): s.w <<= v", "@update_ff\ndef f1(): ld(s.i)", W('b2', 's.t')])
 case('two-drivers', 'ff block and comb block on different wires', None, Mid=[FF('f1', 's.w'), W('b2', 's.t')])
 
 # a larger legal design exercising every rule at once
